@@ -176,7 +176,7 @@ func r36Writers(c *RuleCtx) {
 				fmt.Sprintf("a freq/norm record of %d word(s) is written on a path where the frequency's zero-ness does not call for that shape: the reader, which decides by `freq == 0`, would mis-step through the stream", s.nvals), props, []string{"call: " + describeInstr(c.p, s.cs)})
 		}
 	}
-	c.add(statusOf(n >= 4), "writer/sites", "-", "freq/norm record writes are found (pinned tree: 2 in writeDicts, 2 in mergeTermFreqNormLocs)", fmt.Sprintf("found %d", n), []string{"C01", "C06", "C09"}, nil)
+	c.add(statusOf(n >= half(4)), "writer/sites", "-", "freq/norm record writes are found (pinned tree: 2 in writeDicts, 2 in mergeTermFreqNormLocs)", fmt.Sprintf("found %d", n), []string{"C01", "C06", "C09"}, nil)
 }
 
 func r36Readers(c *RuleCtx) {
